@@ -46,6 +46,14 @@ type c19body struct {
 	io.ReadCloser
 	cl     *c19inproc
 	closed atomic.Bool
+	ctx    context.Context // the request's context: as with net/http, reading the body fails once it has ended
+}
+
+func (b *c19body) Read(p []byte) (int, error) {
+	if err := b.ctx.Err(); err != nil {
+		return 0, err
+	}
+	return b.ReadCloser.Read(p)
 }
 
 func (b *c19body) Close() error {
@@ -78,6 +86,9 @@ func (b *c19body) Close() error {
 
 func (cl *c19inproc) Do(req *http.Request) (*http.Response, error) {
 	cl.started.Add(1)
+	if err := req.Context().Err(); err != nil {
+		return nil, err
+	}
 	rec := httptest.NewRecorder()
 	cl.h.ServeHTTP(rec, req)
 	rsp := rec.Result()
@@ -86,7 +97,7 @@ func (cl *c19inproc) Do(req *http.Request) (*http.Response, error) {
 	}
 	cl.total.Add(1)
 	cl.open.Add(1)
-	rsp.Body = &c19body{ReadCloser: rsp.Body, cl: cl}
+	rsp.Body = &c19body{ReadCloser: rsp.Body, cl: cl, ctx: req.Context()}
 	return rsp, nil
 }
 
